@@ -3,6 +3,7 @@ package props
 import (
 	"fmt"
 	"strings"
+	"sync"
 
 	"github.com/AdguardTeam/urlfilter"
 	"github.com/AdguardTeam/urlfilter/rules"
@@ -308,6 +309,56 @@ func c15RunList(c *core.Ctx, texts []string) {
 				opt |= rules.CosmeticOptionGenericCSS
 			}
 			judge("Engine.GetCosmeticResult", eng.GetCosmeticResult(h, opt))
+		}
+	}
+	if c.Rng.Intn(4) == 0 {
+		// The engine answers pages that load at the same time: asked about
+		// all host names at once from as many goroutines, it gives every one
+		// of them the answer it gives when asked alone.
+		type ans struct{ g, s string }
+		alone := make([]ans, len(c15Hostnames))
+		for i, h := range c15Hostnames {
+			r := ce.Match(h, true, true, true)
+			alone[i] = ans{strings.Join(util.Sorted(r.ElementHiding.Generic), ";"), strings.Join(util.Sorted(r.ElementHiding.Specific), ";")}
+		}
+		var wg sync.WaitGroup
+		start := make(chan struct{})
+		diff := make([]string, len(c15Hostnames))
+		for i, h := range c15Hostnames {
+			wg.Add(1)
+			go func(i int, h string) {
+				defer wg.Done()
+				defer func() {
+					if r := recover(); r != nil {
+						diff[i] = fmt.Sprintf("panic: %v", r)
+					}
+				}()
+				<-start
+				for k := 0; k < 12 && diff[i] == ""; k++ {
+					var r urlfilter.CosmeticResult
+					if k%2 == 0 {
+						r = ce.Match(h, true, true, true)
+					} else {
+						r = eng.GetCosmeticResult(h, rules.CosmeticOptionAll)
+					}
+					got := ans{strings.Join(util.Sorted(r.ElementHiding.Generic), ";"), strings.Join(util.Sorted(r.ElementHiding.Specific), ";")}
+					if got != alone[i] {
+						diff[i] = fmt.Sprintf("generic %q specific %q, alone generic %q specific %q", got.g, got.s, alone[i].g, alone[i].s)
+					}
+				}
+			}(i, h)
+		}
+		close(start)
+		wg.Wait()
+		c.Eval(len(c15Hostnames))
+		c.Event("lists_queried_for_all_host_names_at_once", 1)
+		for i, d := range diff {
+			if d != "" {
+				c.Violation("answer-differs-next-to-other-queries", nil, c15Witness{List: list, Hostname: c15Hostnames[i], Via: "concurrent Match / GetCosmeticResult"},
+					"%q asked about at the same time as %d other host names: %s; list %v", c15Hostnames[i], len(c15Hostnames)-1, d, list)
+
+				break
+			}
 		}
 	}
 	if c.WantSample() && len(list) >= 4 && c.Rng.Intn(40) == 0 {
